@@ -249,8 +249,8 @@ impl Engine for C07 {
     }
     fn runs(&self, tier: Tier) -> u64 {
         match tier {
-            Tier::Quick => 60_000,
-            Tier::Thorough => 1_500_000,
+            Tier::Quick => 250_000,
+            Tier::Thorough => 3_000_000,
         }
     }
 
